@@ -7,12 +7,13 @@ untagged `EitherInterval` tried `B` then `D`; `SemanticVersion` = its Display st
 serde_json / ron libraries themselves are trusted (DESIGN.md section 8).
 The `OfflineDependencyProvider` round trip is `C19_provider_roundtrip` (nested maps; the decoded store
 answers every query — dependencies, versions, packages, choose_version, prioritize — like the original,
-so resolving against it is the same run by C07).  Not modelled: RON support of the round trip (the pinned
+so resolving against it is the same run: `C19_same_resolution`, with C07's `answersOf`).  Not modelled: RON support of the round trip (the pinned
 `ron 0.9.0-alpha.0` cannot read back an untagged enum containing `Bound`, see DESIGN.md section 9).
 -/
 import PubgrubProofs.SerdeLaws
 import PubgrubProofs.SemVerLaws
 import PubgrubProofs.ProviderSerde
+import PubgrubProps.C07
 
 namespace Pubgrub.C19
 open Pubgrub Pubgrub.Serde Bound
@@ -59,6 +60,82 @@ theorem C19_provider_roundtrip {P S V : Type} [DecidableEq P] [LinearOrder V]
       (∀ p s, Offline.chooseVersion o' p s = Offline.chooseVersion (Offline.run ops) p s) ∧
       (∀ p s, Offline.matchingCount o' p s = Offline.matchingCount (Offline.run ops) p s) :=
   Offline.decProvider_encProvider_queries (keyP := keyP) (readP := readP) (keyV := keyV) (readV := readV) (encS := encS) (decS := decS) (hP := hP) (hV := hV) (hS := hS) (ops := ops)
+
+/-- … and it has the same packages and versions (the decoded store is a permutation of the original) -/
+theorem C19_provider_same_content {P S V : Type} [DecidableEq P] [DecidableEq V]
+    (keyP : P → String) (keyV : V → String) (encS : S → Json)
+    (readP : String → Option P) (readV : String → Option V) (decS : Json → Option S)
+    (hP : ∀ p, readP (keyP p) = some p) (hV : ∀ v, readV (keyV v) = some v)
+    (hS : ∀ s, decS (encS s) = some s) (ops : List (Offline.AddOp P S V)) :
+    ∃ o', Offline.decProvider readP readV decS (Offline.encProvider keyP keyV encS (Offline.run ops)) = some o' ∧
+      o'.Perm (Offline.run ops) ∧
+      (∀ p v, Offline.getDependencies o' p v = Offline.getDependencies (Offline.run ops) p v) ∧
+      (∀ p v, v ∈ Offline.versionsOf o' p ↔ v ∈ Offline.versionsOf (Offline.run ops) p) ∧
+      (∀ p, p ∈ Offline.packages o' ↔ p ∈ Offline.packages (Offline.run ops)) := by
+  obtain ⟨o', h1, _, h2, h3, h4, h5⟩ :=
+    Offline.decProvider_encProvider_strong keyP readP keyV readV encS decS hP hV hS ops
+  exact ⟨o', h1, h2, h3, h4, h5⟩
+
+section SameResolution
+variable {P S V Pr E : Type} [DecidableEq P] [LinearOrder V] [VersionSet S V] [DecidableEq S]
+  [LE Pr] [DecidableLE Pr]
+
+/-- what an `OfflineDependencyProvider` answers to the solver's requests: `should_cancel` is `Ok`,
+`prioritize` is a function `prio` of the number of matching versions (`Reverse(count)` in the crate),
+`choose_version` the newest matching version, `get_dependencies` the stored dependencies or
+`Unavailable(reason)`; the heap's choice among maximal packages is the parameter `heap` -/
+def offlineAnswer (o : Offline P S V) (prio : Nat → Pr) (heap : List (P × Pr) → Option P) (reason : String) :
+    Request P S V String Pr E → Answer P S V String Pr E
+  | .prioritize p s => .priority (prio (Offline.matchingCount o p s))
+  | .pick q => .picked (heap q)
+  | .chooseVersion p s => .version (Offline.chooseVersion o p s)
+  | .getDependencies p v =>
+    match Offline.getDependencies o p v with
+    | some ds => .available ds
+    | none => .unavailable reason
+  | _ => .ok
+
+/-- a provider that answers the last request of the history with `offlineAnswer` -/
+def offlineProvider (o : Offline P S V) (prio : Nat → Pr) (heap : List (P × Pr) → Option P) (reason : String)
+    (history : List (Request P S V String Pr E)) : Answer P S V String Pr E :=
+  match history.getLast? with
+  | some r => offlineAnswer o prio heap reason r
+  | none => .ok
+
+/-- "resolving against the deserialized provider gives the same result": the same answers, the same
+calls, the same final result, for every number of rounds -/
+theorem C19_same_resolution (keyP : P → String) (keyV : V → String) (encS : S → Json)
+    (readP : String → Option P) (readV : String → Option V) (decS : Json → Option S)
+    (hP : ∀ p, readP (keyP p) = some p) (hV : ∀ v, readV (keyV v) = some v)
+    (hS : ∀ s, decS (encS s) = some s) (ops : List (Offline.AddOp P S V))
+    (prio : Nat → Pr) (heap : List (P × Pr) → Option P) (reason : String) :
+    ∃ o', Offline.decProvider readP readV decS (Offline.encProvider keyP keyV encS (Offline.run ops)) = some o' ∧
+      ∀ (debug : Bool) (fuel : Nat) (root : P) (rv : V) (n : Nat),
+        Solver.trace debug fuel root rv
+            (C07.answersOf (offlineProvider (E := E) o' prio heap reason) debug fuel root rv n) =
+          Solver.trace debug fuel root rv
+            (C07.answersOf (offlineProvider (E := E) (Offline.run ops) prio heap reason) debug fuel root rv n) ∧
+        (Solver.after (Solver.start debug fuel root rv)
+            (C07.answersOf (offlineProvider (E := E) o' prio heap reason) debug fuel root rv n)).2 =
+          (Solver.after (Solver.start debug fuel root rv)
+            (C07.answersOf (offlineProvider (E := E) (Offline.run ops) prio heap reason) debug fuel root rv n)).2 := by
+  obtain ⟨o', h1, h2, h3, h4⟩ :=
+    Offline.decProvider_encProvider_queries (keyP := keyP) (readP := readP) (keyV := keyV) (readV := readV)
+      (encS := encS) (decS := decS) (hP := hP) (hV := hV) (hS := hS) (ops := ops)
+  refine ⟨o', h1, ?_⟩
+  have hfun : offlineProvider (E := E) o' prio heap reason =
+      offlineProvider (E := E) (Offline.run ops) prio heap reason := by
+    funext history
+    unfold offlineProvider
+    cases history.getLast? with
+    | none => rfl
+    | some r =>
+      cases r <;> simp only [offlineAnswer, h2, h3, h4]
+  intro debug fuel root rv n
+  rw [hfun]
+  exact ⟨rfl, rfl⟩
+
+end SameResolution
 
 /-! Non-vacuity -/
 example : decRange decNat (.arr [.arr [.num 1, .num 3], .arr [.num 5, .null]]) =
